@@ -1603,6 +1603,17 @@ JanetSignal janet_continue_signal(JanetFiber *fiber, Janet in, Janet *out, Janet
         int step = 0;
         while (child->child && janet_fiber_status(child->child) != JANET_STATUS_ALIVE) {
             child = child->child;
+            /* A task of the event loop can be reached through a child link (propagate from it, or ev/go on a
+             * fiber that already was somebody's child). Refuse it like a direct cancel, before anything is marked:
+             * the mark would also overwrite its scheduler flags, which live in the same bits of gc.flags. */
+            if (child->gc.flags & JANET_FIBER_FLAG_ROOT) {
+#ifdef JANET_EV
+                *out = janet_cstringv("cannot cancel root fiber, use ev/cancel");
+#else
+                *out = janet_cstringv("cannot cancel root fiber");
+#endif
+                return JANET_SIGNAL_ERROR;
+            }
             if (step++ & 1) slow = slow->child;
             if (child == slow) break;
         }
